@@ -35,13 +35,17 @@ type Val struct {
 }
 
 type State struct {
-	H map[string]string // component -> current term
+	H    map[string]string // component -> current term
+	Held map[string]int    // static lock knowledge: "comp|ref" -> 0 free, 1 read, 2 write, -1 unknown
 }
 
 func (s *State) clone() *State {
-	n := &State{H: make(map[string]string, len(s.H))}
+	n := &State{H: make(map[string]string, len(s.H)), Held: make(map[string]int, len(s.Held))}
 	for k, v := range s.H {
 		n.H[k] = v
+	}
+	for k, v := range s.Held {
+		n.Held[k] = v
 	}
 	return n
 }
@@ -513,6 +517,9 @@ func (t *FnTrans) get(comp string) string {
 	if !t.declared[n] {
 		t.declare(n, s)
 		t.typedFresh(comp, n)
+		if strings.HasPrefix(comp, "TD.") {
+			t.emit(fmt.Sprintf("(assert (forall ((td$r Int)) (! (>= (select %s td$r) 0) :pattern ((select %s td$r)))))", n, n))
+		}
 	}
 	if _, ok := t.entry.H[comp]; !ok {
 		t.entry.H[comp] = n
